@@ -156,8 +156,8 @@ func (x *hist) genesis(over map[int]sinfo) {
 }
 
 var propEnum = []govtypes.NetworkProperty{govtypes.MischanceConfidence, govtypes.MaxMischance, govtypes.MischanceRankDecreaseAmount,
-	govtypes.DowntimeInactiveDuration, govtypes.UnjailMaxTime}
-var propNames = []string{"MischanceConfidence", "MaxMischance", "MischanceRankDecreaseAmount", "DowntimeInactiveDuration", "UnjailMaxTime"}
+	govtypes.DowntimeInactiveDuration, govtypes.UnjailMaxTime, govtypes.MinValidators}
+var propNames = []string{"MischanceConfidence", "MaxMischance", "MischanceRankDecreaseAmount", "DowntimeInactiveDuration", "UnjailMaxTime", "MinValidators"}
 
 // setProp: a passed SetNetworkProperty proposal, applied through the real gov proposal router
 func (x *hist) setProp(which int, value uint64) {
@@ -185,12 +185,14 @@ func (x *hist) setProp(which int, value uint64) {
 			x.cur.Downtime = value
 		case 4:
 			x.cur.Unjail = value
+		case 5:
+			x.cur.MinVals = value
 		}
 	}
 	// the settings the code will read are the ones the model is told about
 	pr := gk.GetNetworkProperties(x.blockCtx())
 	if pr.MischanceConfidence != x.cur.MC || pr.MaxMischance != x.cur.MaxM || pr.MischanceRankDecreaseAmount != x.cur.RankDec ||
-		pr.DowntimeInactiveDuration != x.cur.Downtime || pr.UnjailMaxTime != x.cur.Unjail {
+		pr.DowntimeInactiveDuration != x.cur.Downtime || pr.UnjailMaxTime != x.cur.Unjail || pr.MinValidators != x.cur.MinVals {
 		panic("network properties differ from the tracked settings")
 	}
 	e := ""
